@@ -413,7 +413,9 @@ def run (p : Nat) (s : State) : List Op → State
 def lookup (s : State) (id : Cid) : Option Nat := mapGet s.map id
 
 /-- the NEW_CONNECTION_ID frames emitted so far (wire-level ghost) -/
-def emitted (s : State) : List Frame :=
-  s.events.filterMap (fun e => match e with | .txNcid f => some f | _ => none)
+def framesOf (ev : List Ev) : List Frame :=
+  ev.filterMap (fun e => match e with | .txNcid f => some f | _ => none)
+
+def emitted (s : State) : List Frame := framesOf s.events
 
 end Quic.Conn.LocalIds
